@@ -168,11 +168,12 @@ class ReduceNode(Node):
         self.children = {
             "attrs": get_tree(state["content"], load_context, trusted=trusted),
             "args": get_tree(reduce["args"], load_context, trusted=trusted),
+            # no "__id__": an id made up while loading must not end up in the
+            # memo of ids that were saved, where a saved id could hit it
             "constructor": TypeNode(
                 {
                     "__class__": constructor_name,
                     "__module__": constructor_module,
-                    "__id__": id(constructor),
                 },
                 load_context,
                 trusted=trusted,
